@@ -556,7 +556,7 @@ def run(ctx: Ctx) -> None:
         f"Plus the ConnectionManager alone, with and without a registered main loop (the thread-safe hand-off of the threaded interface, reports piling up before the loop runs): ALL sequences of length <= 6 (thorough 7) over {CM_EVENTS}: "
         "state = last report, every callback sees each real transition once and in order, the connected event is set exactly in CONNECTED. "
         "Plus the real XKNX with ConnectionConfig(threaded=True) (UDP and TCP tunnel; gateway accepting, or refusing the first connect so that start() fails and is repeated) on TWO virtual loops and an executor agent "
-        f"under one scheduler: every schedule with <= {3 if ctx.thorough else 2} deviations, a deviation being a departure from the default agent order main > executor > connection-loop at a point where more than one can run, an environment event "
+        f"under one scheduler: every schedule with <= {3 if ctx.thorough else 2} deviations, a deviation being a departure from the default agent order (two families: main > executor > connection-loop, and connection-loop > executor > main, i.e. a busy application loop in front of which reports and frames pile up) at a point where more than one can run, an environment event "
         "(bus frame, user telegram, user stop, server disconnect, +0.5 s) at a quiescent point, or a bus frame while stop() is in progress. Oracle: stop() returns (no join deadlock), then silence, no task alive, thread loop stopped, state "
         "DISCONNECTED with the last callback saying so; state callbacks never repeat a state; bus frames sent before stop() reach the telegram callback once and in order, user telegrams reach the wire once and in order; every callback runs "
         "in the main loop's thread and no loop's non-threadsafe scheduling call is used from another thread (asyncio's debug-mode rule, checked on every call)"
@@ -575,7 +575,8 @@ def run(ctx: Ctx) -> None:
     ctx.bounds["threaded_deviation_bound"] = tb
     for kind in ("udp", "tcp"):
         for fam in ("", "refused"):
-            explore(ctx, __name__, "threaded", (kind, fam, 5 if ctx.thorough else 4), bound=tb)
+            for order in ("main-first", "conn-first"):
+                explore(ctx, __name__, "threaded", (kind, fam, 5 if ctx.thorough else 4, order), bound=tb)
     rdepth = 5 if ctx.thorough else 4
     ctx.bounds["routing_sequence_depth"] = rdepth
     ctx.pmap(routing_worker, [(k, 32, rdepth) for k in range(32)])
